@@ -51,6 +51,8 @@ type Case struct {
 	Variant    int             `json:"variant"`
 	Sched      []string        `json:"sched"`
 	Cut        int             `json:"cut"`
+	Slow       []int64         `json:"slow"` // jitter mode: [class byte ('r','w','s' or 0), worker index, microseconds]
+	Weights    map[string]int  `json:"weights"` // schedule bias of random walks: weight per goroutine class r|w|s|c
 	Raw        json.RawMessage `json:"-"`
 }
 
@@ -196,7 +198,7 @@ func runCase(c Case) M {
 			if forced {
 				p = en[len(en)-1] // drain deterministically
 			} else {
-				p = en[rng.Intn(len(en))]
+				p = pick(rng, en, c.Weights)
 			}
 		}
 		schedTaken = append(schedTaken, p.G)
@@ -297,6 +299,30 @@ func runCase(c Case) M {
 	return M{"case": c.Raw, "trace": trace, "run": run, "sched": schedTaken, "diverged": diverged}
 }
 
+// pick chooses among the enabled operations, by goroutine class weight if weights are given.
+func pick(rng *rand.Rand, en []*sched.Pending, w map[string]int) *sched.Pending {
+	if len(w) == 0 {
+		return en[rng.Intn(len(en))]
+	}
+	total := 0
+	ws := make([]int, len(en))
+	for i, p := range en {
+		ws[i] = w[p.G[:1]]
+		if ws[i] <= 0 {
+			ws[i] = 1
+		}
+		total += ws[i]
+	}
+	x := rng.Intn(total)
+	for i := range en {
+		if x < ws[i] {
+			return en[i]
+		}
+		x -= ws[i]
+	}
+	return en[len(en)-1]
+}
+
 // ---------------------------------------------------------------------------------------------
 // jitter mode: real concurrency.  The hooks only sleep for a duration derived from
 // hash(seed, site, local counter): no shared state, no synchronisation, so they add no
@@ -314,12 +340,20 @@ func (c *countingReader) Read(p []byte) (int, error) {
 
 var jitterSeed int64
 
+// one goroutine class made slow on purpose ("however fast or slow the reader, the decoders and the consumer are"):
+// slowClass 'r' | 'w' | 's' | 0 (none), slowWho = worker index for 'w', slowUS = microseconds per hook
+var slowClass, slowWho, slowUS int64
+
 // installed once per process: goroutines of a finished run may still be in their last hook
 func jitterHook() func(string, int, interface{}, int64, int64) {
 	return func(site string, who int, ch interface{}, a, b int64) {
 		h := fnv.New64a()
 		fmt.Fprintf(h, "%d|%s|%d|%d", atomic.LoadInt64(&jitterSeed), site, who, a)
 		v := h.Sum64()
+		if sc := atomic.LoadInt64(&slowClass); sc != 0 && int64(site[0]) == sc && (sc != 'w' || int64(who) == atomic.LoadInt64(&slowWho)) {
+			time.Sleep(time.Duration(atomic.LoadInt64(&slowUS)) * time.Microsecond)
+			return
+		}
 		switch v % 4 {
 		case 0:
 		case 1:
@@ -341,6 +375,12 @@ type snap struct {
 func runJitter(c Case) M {
 	fi := pbfmini.Build(c.Cfg.Cfg, c.Variant)
 	atomic.StoreInt64(&jitterSeed, c.Seed)
+	atomic.StoreInt64(&slowClass, 0)
+	if len(c.Slow) == 3 {
+		atomic.StoreInt64(&slowWho, c.Slow[1])
+		atomic.StoreInt64(&slowUS, c.Slow[2])
+		atomic.StoreInt64(&slowClass, c.Slow[0])
+	}
 	ctx, cancel := context.WithCancel(context.Background())
 	defer cancel()
 	cr := &countingReader{r: bytes.NewReader(fi.Data)}
